@@ -29,6 +29,9 @@ CHECKS = {
     "C11": dict(level="exploration", technique="deterministic simulation (seeded start/step/site search, exact-epoch inverse transform oracle)",
                 text="real runs over start instants at 1 s granularity, steps 2-3600 s, up to ~1.5 days, arbitrary sites; each epoch judged against the closed-form ellipsoid point using the exact epoch computed by the harness",
                 note="trusts the repo's eci2ecef at the exact instant (C04 is about the transform); 1 m / 1e-7 km/s tolerances"),
+    "C15": dict(level="exploration", technique="deterministic simulation (burn interval vs. step grid search, task retry; piecewise reference integration oracle)",
+                text="truth runs under special perturbations with one finite burn / maneuver placed relative to the step grid (inside a step, spanning steps, on boundaries, at the scenario start), judged at every epoch against a piecewise DOP853 reference that thrusts only inside the interval with rsim's own thrust formulas",
+                note="trusts the repo's non-thrust acceleration (C13) and SciPy DOP853; tolerance scaled to the repo integrator's own accuracy"),
     "C16": dict(level="exploration", technique="deterministic simulation (job-completion-order exploration and importer-file angle re-representation / row shuffling; per-update monitor with independent wrap and circular-mean references)",
                 text="the order of simultaneous observations (completion order of task jobs, row order of an importer file) and the representation of stored azimuths (+-k turns, signed range) are the explored dimensions; each UKF update is judged as a function of (prior, observations), and every update is monitored against rsim's own wrapped difference and weighted circular mean; targets are placed on the 0/360 and 180 degree azimuths",
                 note="helper identities are exercised on values runs produce, not on all inputs; posterior tolerance 1e-9 relative + 100*eps*cond(S)*|update|, updates with cond(S) > 4e10 not judged"),
